@@ -43,7 +43,7 @@ macro "tie_gdt" : tactic =>
              (try simp only [DescriptorFlags.PRESENT, DescriptorFlags.DPL_RING_3] at *) <;>
              (repeat (first | src_unfold | rust_obs_simp
                             | simp only [descTuple_cond, descTuple_default, descTuple_user, descTuple_system] at *)) <;>
-             bv_decide))
+             bv_decide (config := { timeout := 120 })))
 
 /-- C15: the TSS descriptor built by the source equals the model's, for every pointer. -/
 theorem Descriptor_tss_segment_unchecked (ptr : BitVec 64) :
